@@ -58,6 +58,10 @@ func c10Run(c *harness.Check, cs escCase) string {
 			return "unexpected error: " + tr.LoadErr + tr.Err
 		}
 		out = tr.Out
+		if tr.Body != nil {
+			// the literal reaches the client of Response as it reaches the caller of String
+			return fmt.Sprintf("String renders %q but Response wrote %q (%s)", clip(tr.Out, 300), clip(*tr.Body, 300), tr.BodyErr)
+		}
 		if tr.Again != nil {
 			if tr.Again.IsErr() {
 				return "second render of the same loaded templates: unexpected error: " + tr.Again.Err
@@ -291,7 +295,7 @@ func TestC10_ContentsEnum(t *testing.T) {
 
 func TestC10_Contexts(t *testing.T) {
 	c := harness.New(t, "C10", "contexts",
-		"random literal contents of 0..12 pieces from the same alphabet, both quote styles, in every usage context of the statement: printed, concatenated on either side, assigned then printed, array element by index / whole array / join, ternary branch, object member, @each element, raw() (direct, after assignment, after concatenation), handed to a registered Go function that returns it (as receiver, as argument, from a variable, in a loop, with text appended, and raw() of its result), and through template directories: insert argument, insert block, component argument, slot body, raw() inside a component. Non-trivial: content has one of < > & \" ' and the context is not 'printed'. Distinct by hash of context + source.")
+		"random literal contents of 0..12 pieces from the same alphabet, both quote styles, in every usage context of the statement: printed, concatenated on either side, assigned then printed, array element by index / whole array / join, ternary branch, object member, @each element, raw() (direct, after assignment, after concatenation), handed to a registered Go function that returns it (as receiver, as argument, from a variable, in a loop, with text appended, and raw() of its result), and through template directories (String twice and Response on the loaded templates): insert argument, insert block, component argument, slot body, raw() inside a component. Non-trivial: content has one of < > & \" ' and the context is not 'printed'. Distinct by hash of context + source.")
 	defer c.Finish()
 	runRapid(t, c, 6000, 75000, func(rt *rapid.T) {
 		content := strings.Join(rapid.SliceOfN(rapid.SampledFrom(c10Pieces), 0, 12).Draw(rt, "content"), "")
